@@ -11,8 +11,10 @@ import vacancy_common as vc
 
 META = dict(
     id='C08',
-    lean_modules=['OnsagerProofs.C08'],
-    theorems=['Onsager.C08.om2_identity', 'Onsager.C08.om2_large_limit', 'Onsager.C08.om2_update_symm'],
+    lean_modules=['OnsagerProofs.C08', 'OnsagerProofs.C08Woodbury'],
+    theorems=['Onsager.C08.om2_identity', 'Onsager.C08.om2_large_limit', 'Onsager.C08.om2_update_symm',
+              'Onsager.C08.woodbury_update', "Onsager.C08.woodbury_update'", 'Onsager.C08.X_U', 'Onsager.C08.Ut_X', 'Onsager.C08.R_closed',
+              'Onsager.C08.X_W', 'Onsager.C08.dgd_core', 'Onsager.C08.one_sub_WX', 'Onsager.C08.Ut_Grepl'],
     tie_theorems=[],
     level_text='Partial. Kernel-checked: the matrix identity that makes the large-exchange-rate update equal to the standard Dyson '
                'update, its scaled form (no term growing with the exchange rate) and symmetry preservation, for any size and field. '
